@@ -1297,7 +1297,7 @@ pub fn run(pc: &PropCtx) {
     pc.assume("search_slice without encoding and with bom_sniffing(false) searches exactly the given bytes (C01-C03 cover that search itself)");
     pc.assume("UTF-8 BOM or utf-8 label with invalid UTF-8 is outside the domain (decoder documented as pass-through, DESIGN 2.9); an explicit label together with bom_sniffing(false) is undocumented and not generated");
     pc.bound("decode_buffer", serde_json::json!(DECODE_BUF));
-    let cases = pc.tier.pick(12_000, 180_000);
+    let cases = pc.tier.pick(25_000, 250_000);
     pc.run_tape("transcode", cases, (160, 2500), gen_case, check);
     let c = cases as u64;
     for (class, min) in [
